@@ -69,6 +69,18 @@ def status_gate(run, U, fn, rule="R-PRINTGATE"):
     return b, paths
 
 
+def parse_target(t):
+    """T when the term is `text.parse::<T>()` or `T::from_str(text)` (the same conversion), else None."""
+    if not is_call(t):
+        return None
+    node = t[3] if len(t) > 3 and isinstance(t[3], dict) else {}
+    if str(t[1]).endswith("::parse"):
+        return (node.get("gargs") or ["?"])[0]
+    if t[1] == "std::str::FromStr::from_str":
+        return (((node.get("f") or {}).get("res") or {}).get("args") or node.get("gargs") or ["?"])[0]
+    return None
+
+
 def check(run, views, tier):
     run.explanation = (
         "R-PRINTGATE: path-wise analysis of ipputil's do_print_job: every path on which the Print-Job request is sent assumes "
@@ -285,9 +297,19 @@ def check(run, views, tier):
                     if c[0] == "match" and c[1] == ("var", "s"):
                         m = re.match(r"^'(true|false)'$", c[2])
                         key = m.group(1) if m else "other"
-                    if key == "other" and c[0] == "match" and suffix(c[1], "::parse"):
+                    if key in (None, "other") and c[0] == "match" and parse_target(c[1]) == "bool" and c[1][2] and c[1][2][0] == ("var", "s"):
+                        # `s.parse::<bool>()` is Ok(true) for "true", Ok(false) for "false" and Err for every other text (core::str: FromStr for bool)
+                        if opt_polarity(c) is True:
+                            key = "bool"
+                            if v == ("ctor", "ipp::value::IppValue::Boolean", [("proj", c[1], "Ok.0")]):
+                                table["true"] = ("ctor", "ipp::value::IppValue::Boolean", [("lit", True)])
+                                table["false"] = ("ctor", "ipp::value::IppValue::Boolean", [("lit", False)])
+                        else:
+                            key = "other"
+                        continue
+                    if key == "other" and c[0] == "match" and parse_target(c[1]) is not None:
                         node = c[1][3] if len(c[1]) > 3 else {}
-                        is_i32 = (node.get("gargs") or [None])[0] == "i32" or "i32" in str(node.get("ty"))
+                        is_i32 = parse_target(c[1]) == "i32" or "i32" in str(node.get("ty"))
                         key = ("int" if is_i32 else "parse?") if ((c[3] is True) or (isinstance(c[3], int) and not isinstance(c[3], bool) and "Ok" in c[2] and not c[2].startswith("!"))) else "text"
                 if key in table and table[key] != v:
                     run.ob("R-PRINTGATE", "FromStr: one result per class of text (%s)" % key, False, "%s and %s on different paths" % (tshow(table[key]), tshow(v)), site(fb),
